@@ -144,7 +144,7 @@ Proof.
   - destruct (nth_error (ws st) g) as [w|]; [|repeat split]. destruct (w_open w); [|repeat split].
     destruct (w_queue w); [repeat split|]. unfold guard_drop. destruct (Z.eqb _ _); repeat split.
   - destruct (nth_error (ws st) g) as [w|]; [|repeat split]. destruct (w_open w); [|repeat split].
-    destruct (G (w_queue w) (upd_worker st g (set_w_open (set_w_queue w []) false))) as (G1 & G2 & G3 & G4 & G5 & G6 & G7).
+    destruct (G (w_queue w) (emit (upd_worker st g (set_w_open (set_w_queue w []) false)) (EvKilled g))) as (G1 & G2 & G3 & G4 & G5 & G6 & G7).
     rewrite G1, G2, G3, G4, G5, G6, G7. repeat split.
   - repeat split.
   - repeat split.
@@ -193,7 +193,7 @@ Proof.
     + auto.
   - destruct (nth_error (ws st) g) as [w|] eqn:Eg; [|split; [apply Hsame|split; [apply Hsame|auto]]].
     destruct (w_open w); [|split; [apply Hsame|split; [apply Hsame|auto]]].
-    destruct (fold_lost_ws (w_queue w) (upd_worker st g (set_w_open (set_w_queue w []) false))) as [F1 F2].
+    destruct (fold_lost_ws (w_queue w) (emit (upd_worker st g (set_w_open (set_w_queue w []) false)) (EvKilled g))) as [F1 F2].
     rewrite F1, F2. cbn.
     destruct (Hrep g w (set_w_open (set_w_queue w []) false) Eg eq_refl) as [R1 R2]. auto.
   - cbn. split; [apply Hsame|split; [apply Hsame|]].
